@@ -6,11 +6,42 @@ import random
 from ..gen import specs as gs
 
 
-def gen_small_specs(rnd, n, tier, costs=None):
+def dedicated_spec(rnd):
+    """Dedicated-buffer hierarchy: MainMemory -> GLB {keep: two tensors} -> XB {keep: X} -> XR {may_keep: X} -> MAC.
+    XB is FORCED to hold X although it is not X's backing store, XR may hold X again directly below it; with a tiny
+    XR and a cheap XR / expensive XB the optimum puts the two nodes next to each other (register-stationary X)."""
+    d = gs.gen_spec(rnd, "mm1", levels=2, size_class="tight", costs="tradeoff")
+    w = d["workload"]
+    for rv in w["ranks"]:
+        w["ranks"][rv] = rnd.choice([2, 3, 3, 4])
+    ts = [t["name"] for t in w["einsums"][0]["tensors"]]
+    x = rnd.choice(ts)
+    others = [t for t in ts if t != x]
+    bits = w["bits"]
+    sizes = gs.tensor_sizes(w)
+    e_buf = rnd.choice([5, 5, 10, 2])
+    main = {"name": "MainMemory", "size": "inf", "keep": "All", "may_keep": "All", "read_e": 100, "write_e": 100,
+            "read_tp": "inf", "write_tp": "inf", "leak": 0}
+    glb = {"name": "GLB", "size": rnd.randint(2, max(3, sum(sizes[t] for t in others))) * bits, "keep": " | ".join(others), "may_keep": "Nothing",
+           "read_e": e_buf, "write_e": e_buf, "read_tp": "inf", "write_tp": "inf", "leak": 0}
+    xb = {"name": "XB", "size": rnd.randint(1, max(2, sizes[x])) * bits, "keep": x, "may_keep": "Nothing",
+          "read_e": e_buf, "write_e": e_buf, "read_tp": "inf", "write_tp": "inf", "leak": 0}
+    xr = {"name": "XR", "size": rnd.choice([1, 1, 2, 4]) * bits, "keep": "Nothing", "may_keep": x,
+          "read_e": 0.5, "write_e": 0.5, "read_tp": "inf", "write_tp": "inf", "leak": 0}
+    d["arch"] = {"mems": [main, glb, xb, xr], "mac": {"name": "MAC", "energy": 1, "tp": 1, "leak": 0}, "levels": 4,
+                 "size_class": "tight-dedicated", "costs": "dedicated"}
+    d["class"] = "mm1/4L/tight-dedicated/dedicated"
+    return d
+
+
+def gen_small_specs(rnd, n, tier, costs=None, dedicated=0.2):
     cases = []
     tries = 0
     while len(cases) < n and tries < 50 * n:
         tries += 1
+        if costs is None and rnd.random() < dedicated:
+            cases.append(dedicated_spec(rnd))
+            continue
         wk = rnd.choice(["mm1", "mm1", "mv1", "ew1"])
         levels = 2 if tier == "quick" else rnd.choice([2, 2, 3])
         d = gs.gen_spec(rnd, wk, levels=levels, size_class=rnd.choice(["inf", "tight", "tight", "generous"]),
